@@ -253,6 +253,76 @@ def discover_extra_refs():
     return found
 
 
+# ------------------------------------------------------------------ the index of x[index] / x[index] = v is an input too
+
+
+def index_mutation_cases(only=None):
+    """forward through `x[index]` / `z[index] = v`; then the *index object* is changed in place (an integer or boolean
+    tensor through MyGrad's own in-place update, an ndarray or a list by the caller); backward must still differentiate
+    the recorded selection.  -> [(name, message)]"""
+    out = []
+
+    def mk_index(kind):
+        if kind == "int-tensor":
+            i = mg.tensor([0, 1])
+            return i, lambda: i.__setitem__(Ellipsis, np.array([2, 3]))
+        if kind == "int-array":
+            i = np.array([0, 1])
+            return i, lambda: i.__setitem__(Ellipsis, [2, 3])
+        if kind == "list":
+            i = [0, 1]
+            return i, lambda: i.__setitem__(slice(None), [2, 3])
+        if kind == "bool-array":
+            i = np.array([True, True, False, False])
+            return i, lambda: i.__setitem__(Ellipsis, [False, False, True, True])
+        if kind == "bool-tensor":
+            i = mg.tensor([True, True, False, False])
+            return i, lambda: i.__setitem__(Ellipsis, np.array([False, False, True, True]))
+        if kind == "tuple-array-slice":
+            a = np.array([0, 1])
+            return (a,), lambda: a.__setitem__(Ellipsis, [2, 3])
+        raise KeyError(kind)
+
+    for op in ("getitem", "setitem"):
+        for kind in ("int-tensor", "int-array", "list", "bool-array", "bool-tensor", "tuple-array-slice"):
+            name = f"{op}:{kind}"
+            if only is not None and name != only:
+                continue
+            grads = []
+            for mutate in (False, True):
+                x = mg.tensor([1.0, 2.0, 3.0, 4.0])
+                w = mg.tensor([10.0, 20.0])
+                idx, change = mk_index(kind)
+                try:
+                    if op == "getitem":
+                        L = (x[idx] * w).sum()
+                    else:
+                        z = +x
+                        z[idx] = w
+                        L = (z * mg.tensor([1.0, 2.0, 3.0, 4.0])).sum()
+                    if mutate:
+                        try:
+                            change()
+                        except Exception:  # noqa: BLE001  (a refused write is fine: the index then cannot change)
+                            pass
+                    L.backward()
+                except Exception as e:  # noqa: BLE001
+                    out.append((name, f"raised {type(e).__name__}: {str(e)[:80]}"))
+                    grads = None
+                    break
+                grads.append((np.array(x.grad), None if w.grad is None else np.array(w.grad)))
+            if grads is None:
+                continue
+            (gx0, gw0), (gx1, gw1) = grads
+            if not np.array_equal(gx0, gx1) or (gw0 is None) != (gw1 is None) or (gw0 is not None and not np.array_equal(gw0, gw1)):
+                out.append((name, f"changing the index object after the forward pass changed the gradients: x.grad {gx0.tolist()} -> "
+                            f"{gx1.tolist()}, value.grad {None if gw0 is None else gw0.tolist()} -> {None if gw1 is None else gw1.tolist()}"))
+    return out
+
+
+N_INDEX_CASES = 12
+
+
 # ------------------------------------------------------------------ run
 
 
@@ -262,7 +332,8 @@ def run(ctx: Ctx) -> Outcome:
     out.rule = ("random programs interleaving reads, views and in-place writes (item assignment with basic/int-array incl. "
                 "repeated/boolean keys and broadcast values, augmented assignment, ufunc out= with optional where=) on bases, "
                 "views and views of views, one final backward; non-trivial = an in-place update whose target is read before and "
-                "after it; distinct by program hash.  Plus forward/mutate-input/backward cases for 20 op classes.")
+                "after it; distinct by program hash.  Plus forward/mutate-input/backward cases for 20 op classes, and 12 cases in which "
+                "the index object of x[index] / x[index] = v (integer/boolean tensor, ndarray, list) is changed after the forward pass.")
     seen = engcheck.report(out, results, "C05", oracle)
     # H_vars_only
     ncases = len(op_cases())
@@ -279,6 +350,11 @@ def run(ctx: Ctx) -> Outcome:
                 seen.add(sig)
                 out.violations.append(Violation(sig, f"{r['name']}: {f} ({r['mut']})", {"kind": "vars_only", "args": list(r["args"])}))
     out.stats["vars_only_ops"] = ophist
+    for name, msg in index_mutation_cases():
+        out.violations.append(Violation(f"C05|index-changed-after-forward|{name}", f"{name}: {msg}", {"kind": "index", "name": name}))
+    out.evaluations += N_INDEX_CASES
+    for k in range(N_INDEX_CASES):
+        out.nontrivial.add(stable_hash(["index-case", k]))
     out.extra["ops_holding_inputs_outside_variables"] = discover_extra_refs()
     out.assumptions = ["exact-integer fragment for the program part; op-level mutation cases use float64 with 1e-12 tolerance",
                        "H_vars_only (backward reads inputs only through `variables`) is monitored per op class, not proved"]
@@ -287,6 +363,10 @@ def run(ctx: Ctx) -> Outcome:
 
 def replay(data) -> bool:
     r = data["replay"]
+    if r.get("kind") == "index":
+        res = index_mutation_cases(only=r["name"])
+        print(res)
+        return bool(res)
     if r.get("kind") == "vars_only":
         res = vars_only_case(tuple(r["args"]))
         print(res)
